@@ -13,6 +13,7 @@ observed by the harness on every run, not proved.
 import RkVerif.Lemmas.C01
 import RkVerif.Lemmas.C01Pipe
 import RkVerif.Lemmas.C01Blocks
+import RkVerif.Lemmas.C01Live
 namespace RkVerif.C01
 
 /-! ### §1 block arithmetic of parallel_in_blocks_of -/
@@ -221,6 +222,65 @@ theorem sched_inv_fails_orig :
 
 /-- the same actions are not an execution of the fixed transition: after index 12 the partition is done -/
 example : run false init origWitness = none := by decide
+
+/-! ### §2 liveness of the task-set path (under scheduler fairness; task sets added with m_MinRange ≥ 1) -/
+
+/-- **No stuck state.**  Whenever a partition is still queued, in flight or being split, some scheduler-internal
+    action (take / push / inline / jobDone / pop / exec / finish) is enabled. -/
+theorem sched_no_stuck (s : State) (hne : s.jobs ≠ [] ∨ s.queued ≠ [] ∨ s.inflight ≠ []) :
+    ∃ a, a.internal = true ∧ (step false s a).isSome = true :=
+  progress s hne
+
+/-- **Every internal step makes progress.**  In every state reachable with `m_MinRange ≥ 1`, each internal step
+    strictly decreases the lexicographic measure `mu` (weighted outstanding indices, indices still to be split,
+    number of activations) – for every set size, partition count, interleaving, pipe-full choice and nesting. -/
+theorem sched_step_decreases (s s' : State) (a : Act) (h : ReachableOk s) (hi : a.internal = true)
+    (hs : step false s a = some s') : lt3 (mu s') (mu s) := by
+  have hok : a.ok := by cases a <;> simp_all [Act.internal, Act.ok]
+  exact (live_step s s' a (inv_reachable s (reachable_of_ok s h)) (linv_reachable s h) hok hs).2 hi
+
+/-- **Termination.**  There is no infinite run of internal steps: once no more task sets are handed over, the
+    scheduler threads run out of work after finitely many steps. -/
+theorem sched_terminates (f : Nat → State) (h0 : ReachableOk (f 0))
+    (hstep : ∀ n, ∃ a, a.internal = true ∧ step false (f n) a = some (f (n + 1))) : False := by
+  have hr : ∀ n, ReachableOk (f n) := by
+    intro n
+    induction n with
+    | zero => exact h0
+    | succ n ih =>
+      obtain ⟨a, hi, hs⟩ := hstep n
+      have hok : a.ok := by cases a <;> simp_all [Act.internal, Act.ok]
+      exact ReachableOk.step a ih hok hs
+  have hacc : ∀ x, Acc lt3 x → ∀ n, mu (f n) = x → False := by
+    intro x hx
+    induction hx with
+    | intro x _ ih =>
+      intro n hn
+      obtain ⟨a, hi, hs⟩ := hstep n
+      have hd := sched_step_decreases (f n) (f (n + 1)) a (hr n) hi hs
+      exact ih (mu (f (n + 1))) (hn ▸ hd) (n + 1) rfl
+  exact hacc (mu (f 0)) (lt3_wf.apply _) 0 rfl
+
+/-- **The join returns.**  In a reachable state in which no internal action is enabled – which by the two theorems
+    above every fair execution reaches once no more sets are added – `WaitforTask(t)` may leave its loop for every
+    task set `t` handed over so far (and then, by `sched_exactly_once`, every index of `t` has run exactly once). -/
+theorem sched_quiescent_join (s : State) (h : ReachableOk s)
+    (hq : ∀ a, a.internal = true → step false s a = none) (t : Nat) (ht : t < s.nsets) : waitMayReturn s t := by
+  have hempty : s.jobs = [] ∧ s.queued = [] ∧ s.inflight = [] := by
+    refine ⟨?_, ?_, ?_⟩ <;> (apply Classical.byContradiction; intro hne)
+    · obtain ⟨a, hi, hs⟩ := progress s (Or.inl hne); rw [hq a hi] at hs; simp at hs
+    · obtain ⟨a, hi, hs⟩ := progress s (Or.inr (Or.inl hne)); rw [hq a hi] at hs; simp at hs
+    · obtain ⟨a, hi, hs⟩ := progress s (Or.inr (Or.inr hne)); rw [hq a hi] at hs; simp at hs
+  obtain ⟨hj, hqd, hi⟩ := hempty
+  have hcnt := (inv_reachable s (reachable_of_ok s h)).cnt t
+  refine ⟨⟨ht, by simp [hj]⟩, ?_⟩
+  rw [hcnt]
+  simp [pending, hj, hqd, hi, sumBy]
+
+/-- non-vacuity: the demo execution below only uses `m_MinRange = 1` adds, so its states are `ReachableOk` -/
+example : ReachableOk init := ReachableOk.init
+example : ∃ s, step false init (.add 13 1 6 2) = some s ∧ ReachableOk s :=
+  ⟨_, rfl, ReachableOk.step (.add 13 1 6 2) ReachableOk.init (by simp [Act.ok]) rfl⟩
 
 /-! ### §3 the pipe's flag protocol -/
 
